@@ -151,23 +151,29 @@ def registry_classes(extra_pairs=()):
     # oracle guidance only (the check itself is the Lean theorem real_runs_disciplined over the regenerated traces): a pair
     # whose later run reads a registry, or a key, that it has not determined itself is handed to the byte comparison
     immut = {r for r, c in worst.items() if c == 0}
+    per = []        # per traced run: (item, label, keys written, undisciplined reads)
     for i, (label, evs, exc) in enumerate(TRACES):
-        s_, sk_, bad = set(immut), set(), None
+        s_, sk_, bad, wr = set(immut), set(), [], set()
         for kind, rid, key in evs:
             if kind == "reset":
                 if worst.get(rid) != 0:
                     s_.add(rid)
             elif kind == "w":
                 sk_.add((rid, key))
+                wr.add((rid, key))
             elif kind == "ra" and rid not in s_:
-                bad = (kind, rid, key)
+                bad.append((rid, None))
             elif kind == "rk" and rid not in s_ and (rid, key) not in sk_:
-                bad = (kind, rid, key)
-            if bad:
-                break
-        if bad and list(pairs[i // 2]) not in LEAK_PAIRS:
-            LEAK_PAIRS.append(list(pairs[i // 2]))
-            UNDISCIPLINED.append("%s: %s %s %s" % (label, bad[0], bad[1], bad[2]))
+                bad.append((rid, key))
+        per.append((pairs[i // 2][i % 2], label, wr, bad))
+        if bad:
+            UNDISCIPLINED.append("%s: reads %s %s" % (label, bad[0][0], bad[0][1]))
+    # an earlier run A that writes what a later run B reads undetermined: any two traced libraries, not only the probed pairs
+    for ia, la, wa, _ in per:
+        for ib, lb, _, bb in per:
+            hit = [(r, k) for r, k in bb if (r, k) in wa or (k is None and any(r == r2 for r2, _ in wa))]
+            if hit and [ia, ib] not in LEAK_PAIRS and len(LEAK_PAIRS) < 10:
+                LEAK_PAIRS.append([ia, ib])
     return worst, why
 
 
